@@ -155,6 +155,24 @@ def check(run, driver):
                                     **({"p": num(d["p_value"])} if "p_value" in d else {})} for a, b, d in edges]})
         if not nx.utils.graphs_equal(G, G0):
             run.prop_fail("graph modified by export", {"graph": gi}, {"clause": "purity"})
+    # ---- history: the same graph object changed in place between two exports must export like a fresh graph with those edges
+    for it in range(40 if thorough else 12):
+        G = rand_graph(rng, pcmci=bool(it % 2))
+        if G.number_of_edges() == 0:
+            continue
+        exp = (lambda g: U.pcmci_network_to_dataframe(g)) if it % 2 else (lambda g: U.network_to_dataframe(g, method="standard", max_lag=3))
+        exp(G)
+        u_, v_, k_, d_ = list(G.edges(keys=True, data=True))[int(rng.integers(0, G.number_of_edges()))]
+        d_["lag"] = int(d_.get("lag", 0)) + 1; d_["p_value"] = 0.0; d_["cmi"] = 9.5
+        if it % 3 == 0:
+            G.add_edge(v_, u_, lag=7, cmi=0.25, p_value=0.5)
+        fresh = nx.MultiDiGraph(); fresh.add_nodes_from(G.nodes(data=True)); fresh.add_edges_from((a, b, dict(dd)) for a, b, dd in G.edges(data=True))
+        d1, d2 = exp(G), exp(fresh)
+        run.case("history", [it, [(repr(a), repr(b), dd) for a, b, dd in G.edges(data=True)]], True)
+        same = list(d1.columns) == list(d2.columns) and len(d1) == len(d2) and all(cell_eq(x, y) for r1, r2 in zip(d1.values.tolist(), d2.values.tolist()) for x, y in zip(r1, r2))
+        if not same:
+            run.prop_fail("after the graph was changed in place, the export of the same graph object differs from the export of a fresh graph with the same edges (stale state)",
+                          {"edges_after_change": [(repr(a), repr(b), dd) for a, b, dd in G.edges(data=True)], "exporter": "pcmci" if it % 2 else "network"}, {"clause": "history"})
     # ---- PCMCI-graph export
     pgraphs = [rand_graph(rng, pcmci=True) for _ in range(300 if thorough else 80)] + [nx.MultiDiGraph()]
     for G in pgraphs:
